@@ -334,6 +334,54 @@ def body(chk, db, cfgname):
     from checks import c06
     c06.body(ViewCheck(chk, {"C06-R4": SerializeOnly(r7)}), db, cfgname)
 
+    # ------------------------------------------------------------------ R8: look-up results dereferenced only when found
+    # every `container.find(key)` whose result is dereferenced, library-wide: the dereference must be on the edge where the
+    # result differs from end() (or under a positive count(key)); the inverted test dereferences end() exactly for the keys
+    # that are absent.  Five look-ups rely on an invariant established elsewhere and are listed as assumed, with the rule
+    # that establishes it.
+    ASSUMED_FOUND = {
+        "Pomerol::FieldOperator::getPartFromRightIndex": "block maps are filled for every part by prepare() (C07-R5); callers pass blocks taken from those maps",
+        "Pomerol::FieldOperator::getPartFromLeftIndex": "block maps are filled for every part by prepare() (C07-R5); callers pass blocks taken from those maps",
+        "Pomerol::StatesClassification::getQuantumNumbers": "every block number handed out by getBlockNumber(state) was registered in BlockToQuantum by compute() (C07-R1)",
+    }
+    r8 = chk.rule("C17-R8", "a look-up result (find) is dereferenced only where it is known to differ from end() (found edge or positive count)", "F2 typestate", 12)
+    for g in sorted(fns, key=lambda x: (x.file, x.line)):
+        if g.body is None or g.body < 0:
+            continue
+        gctx = None
+        gat = None
+        nsite = 0
+        for j, n in g.walk(g.body):
+            if not (n["k"] == "call" and n.get("ck") == "op" and n.get("op") in ("->", "*") and n.get("args")):
+                continue
+            gctx = gctx or thr.ctx(g)
+            try:
+                k = gctx.key(n["args"][0])
+            except AnalysisBroken:
+                continue
+            if not (k[0] == "mcall" and k[1].split("::")[-1] == "find" and len(k) == 4):
+                continue
+            pj = g.cfg.pos1(j)
+            if pj is None or pj[0] not in g.cfg.reachable():
+                continue        # (dead code after a throw)
+            gat = gat or thr.facts(g)
+            fa = gat.get(pj, frozenset())
+            nsite += 1
+            site = "%s/%d:deref-find#%d" % (g.qn, len(g.params), nsite)
+            is_end = lambda y: isinstance(y, tuple) and y[0] == "mcall" and y[1].split("::")[-1] in ("end", "cend") and len(y) == 3 and y[2] == k[2]
+            ne = any(x[0] == "!=" and k in x[1:] and any(is_end(y) for y in x[1:]) for x in fa)
+            eq = any(x[0] == "==" and k in x[1:] and any(is_end(y) for y in x[1:]) for x in fa)
+            cnt = any((x[0] == "true" and isinstance(x[1], tuple) and x[1][0] == "mcall" and x[1][1].split("::")[-1] == "count" and x[1][2:] == k[2:]) or
+                      (x[0] in ("<", "!=") and any(isinstance(y, tuple) and y[0] == "mcall" and y[1].split("::")[-1] == "count" and y[2:] == k[2:] for y in x[1:]) and ("lit", 0) in x[1:]) for x in fa)
+            if ne or cnt:
+                r8.ok(site, g.loc(j), "dereferenced on the found edge" if ne else "dereferenced under a positive count of the same key", cfgname)
+            elif eq:
+                r8.bad(site, g.loc(j), "the result of %s is dereferenced on the edge where it EQUALS end() (test inverted): end() is dereferenced for every key that is absent, and present keys take the not-found path" % g.s(n["args"][0])[:70], cfgname)
+            elif strip_targs(g.name) in ASSUMED_FOUND:
+                r8.ok(site, g.loc(j), "assumed found: " + ASSUMED_FOUND[strip_targs(g.name)], cfgname)
+            else:
+                r8.bad(site, g.loc(j), "the result of %s is dereferenced without a dominating test against end() (or count): an absent key dereferences end()" % g.s(n["args"][0])[:70], cfgname)
+
     chk.undecided.append("arithmetic overflow (1<<IndexSize), use before prepare/compute, lifetime of leaked raw pointers; UB classes outside the anchored mechanisms")
     chk.note("assumed (not checked): FieldOperator::getPartFrom*Index look-ups rely on the bimap invariant established by prepare (C07-R5)")
 
